@@ -11,6 +11,7 @@ from ..facts import callee, op_place, strip_generics
 from ..flow import Defs, backward_slice, forward_derived, slice_consts, slice_calls, slice_aggregates
 
 LEVEL = 'other'
+TECHNIQUE = 'static analysis: SQL constant tables (liveness predicate, complement, zero-rows handling), one-statement / one-lock counting, case evaluation of the guarded accessors, fail-atomic ordering by dominance'
 CLAUSE = ('every SQLite statement of the store filters on id and on the one liveness predicate, the predicate under which '
           'create may replace a row is its exact complement and delete_expired implies not-live; mutators map zero affected '
           'rows to UnknownId; each store operation is one SQL statement / one mutex acquisition held to the end; in-memory '
